@@ -23,11 +23,24 @@ prop(
         "sign_one_off, and SignedMessage / ProvisioningCms / PublicationCms::create under live ids created before and after a destroyed one and under destroyed ids. After every step, for every id: "
         "get_key_info must still return the recorded key, sign must verify (aws-lc-rs directly) under the recorded key of that id and of no other; a created message must validate under the key recorded for its id "
         "and under no other key of the history; a destroyed id may refuse or keep using its own key (recorded) but must not sign with another key. "
+        "(4) instants between seconds and keys above 2048 bits: a list of jobs per round, dealt to the shards. (4a) SignedMessage::create (strict and relaxed decoding, windows of 1 s .. 1 d, some crossing or ending with 2049), "
+        "ProvisioningCms::create and PublicationCms::create through a Signer of the harness (c10_keys::SizedSigner) whose identity key and one-off EE key are RSA-2048, RSA-3072 or RSA-4096 in all nine pairings: "
+        "validated before encoding (middle) and after decoding at the middle, at both ends, and at B-1s+f and B+f for every bound B of the EE and the CRL window read from the DER and f = 1 ns, 0.5 s, 1 s - 1 ns, "
+        "under the peer key; in the middle under the EE key itself and under other keys of every size. (4b) the independent assembler with the same nine pairings (EE certificate and CRL signed by the big peer key, "
+        "signed attributes signed by the big EE key) through all four decoders with short and long signed attributes and every AKI flavour, run through the whole-second plan of (2) and the between-seconds plan; "
+        "three of seven single violations per pairing and round under the same keys (signature by another key of the same size, signature over the [0] form, digest bit, cA TRUE, EE serial on the CRL, EE or CRL signed by another key of the peer's size). "
+        "(4c) fourteen window layouts (EE ends first, CRL ends first, nested both ways, equal, one-instant EE / CRL, touching, one second, across 2050, ending with 2049, three random) at the same between-seconds instants, "
+        "every third one under big keys. Expectation: an instant s+f lies in [a, b] iff s >= a and (s < b or (s = b and f = 0)). "
         "A case signature is (entry point, attribute order, signed-attrs size class, violated condition or none, CRL shape, EE AKI / basicConstraints shape, BER variant, "
-        "time position relative to both windows, key relation) or (flip, entry point, region, decoded?). evaluations = validate_at (or failed decode) results judged by the oracle."
+        "time position relative to both windows, key relation) or (flip, entry point, region, decoded?) or, for (4), (entry point, key-size pairing, AKI flavours, position relative to both windows with the seconds "
+        "next to each end told apart, which fraction). evaluations = validate_at (or failed decode) results judged by the oracle."
     ),
     assumptions=[
-        "keys are RSA-2048 from a cached pool; evaluation instants are whole seconds (X.509 times have no fractions); library-created messages are judged against the validity found in their DER, after re-decoding",
+        "keys come from caches under .build/keys: six RSA-2048 pool keys, three RSA-3072 and two RSA-4096 keys (generated with aws-lc-rs by the first run, kept in a process-wide OnceLock); only RSA: the CMS signature algorithm of these messages is sha256WithRSAEncryption, "
+        "keys above 4096 bits are not tried; under valgrind the big keys are used only if an earlier stage has cached them (key generation there takes minutes), otherwise the key-size cases are skipped and a note says so",
+        "evaluation instants of parts (1)-(3) are whole seconds; part (4) evaluates between seconds: X.509 times are whole seconds and both ends of a window are inclusive, so an instant later than notAfter / nextUpdate by any fraction is outside, one earlier than notBefore / thisUpdate by any fraction is outside, and every instant in between is inside",
+        "library-created messages are judged against the validity that was asked for (SignedMessage::create, whole seconds) or the one found in their DER (the two wrappers), after re-decoding; before encoding only the middle instant is judged because the wrappers keep the fractions of the wall clock in memory",
+        "RFC 6492 / 8181 / 8183 do not restrict identity and identity-EE keys to RSA-2048 (RFC 7935 profiles the RPKI proper) and the Signer trait leaves the one-off key to the signer, so a correctly signed message under RSA-3072 / RSA-4096 keys meets every condition of the statement",
         "ProvisioningCms::create / PublicationCms::create take their validity from the wall clock (now +- 5 min); the harness reads it back from the DER, no verdict depends on the clock",
         "outside the statement and only recorded: sid different from the EE key identifier, missing signing-time, foreign eContentType, AKI naming another key although the peer signed, explicit FALSE in basicConstraints, "
         "present-but-empty revokedCertificates, GeneralizedTime before 2050 in the CRL, CRL with an empty extension list, BER encodings under strict decoding",
@@ -40,9 +53,12 @@ prop(
         "Runtime oracle: the conjunction in the statement (digest, signature over the DER SET OF of all signed attributes, EE signed by the peer key / current / not a CA, CRL signed by the peer key / current / "
         "not listing the EE) is evaluated from the parameters the harness chose and compared with validate_at at boundary-dense instants and under several keys. Quick: about 600 library-created and 5 000 "
         "independently encoded messages (about 50 000 validations) plus 8 000 classified bit flips, and a small ASan stage; thorough: 12 000 + 150 000 messages (about 1.2 million validations), "
-        "every covered bit of four messages, an ASan stage (600 + 5 000 messages, 12 000 flips) and valgrind memcheck (8 + 48 messages, 1 200 tampered decodes)."
+        "every covered bit of four messages, an ASan stage (600 + 5 000 messages, 12 000 flips) and valgrind memcheck (8 + 48 messages, 1 200 tampered decodes). "
+        "Part 4 (instants between seconds, RSA-2048 / 3072 / 4096 peer and EE keys in all nine pairings) adds in quick about 100 library-created and 220 assembled messages (about 5 000 validations, 3 500 of them "
+        "between seconds: every second next to an end of the EE or the CRL window, on both sides, is reached), in thorough 4 000 + 8 300 messages (190 000 validations, 136 000 between seconds), 330 jobs under ASan and 8 under valgrind."
     ),
     level_note="Trusts the harness' CMS / X.509 / CRL writer and aws-lc-rs as signing and digest oracle; explores a structured sample of messages, times and keys.",
-    technique="runtime oracle over library-created and independently encoded CMS messages + single-point tampering + classified bit flips + model-checked call histories on the library's own signer; ASan; valgrind memcheck",
+    technique="runtime oracle over library-created and independently encoded CMS messages + single-point tampering + classified bit flips + model-checked call histories on the library's own signer "
+              "+ sub-second evaluation instants next to every window end + a harness Signer and assembler with RSA-3072 / RSA-4096 identity and one-off keys; ASan; valgrind memcheck",
     design_ref="DESIGN.md §4 C10",
 )
